@@ -144,6 +144,10 @@ func c06Run(dir string, id int, c *c06Case, jp *jobProvider, lg *zap.SugaredLogg
 		if job.isDone {
 			jp.jobsDone.Dec()
 		}
+		// maintenance releases the descriptor and opens a new one: that one is the harness's to close
+		if job.file != nil && job.file != rf {
+			_ = job.file.Close()
+		}
 	}()
 
 	w := &worker{maxEventSize: c.M, cutOffEventByLimit: c.Cut}
